@@ -55,6 +55,9 @@ def gen(tier, rng, scale):
         if odd and rng.chance(1, 4):
             m = odd[0]                              # the module whose boundaries fall on odd and even addresses
         off = rng.choice(m["offsets"])
+        special = [o for o in m["offsets"] if 0xA000 <= o < 0xC000]      # offsets whose inner frames have no file while an outer frame has one
+        if special and rng.chance(1, 3):
+            off = rng.choice(special)
         other = rng.choice(m["offsets"])
         if rng.chance(1, 2):
             other = max(0, off + rng.choice([-1, -1, 1, -2, 2]))      # the files of the neighbouring byte (another function / line record / inline range)
